@@ -11,7 +11,7 @@ ORDERS = [[5, 4, 3, 2, 1], [1], [2], [3], [4], [5], []]
 RULE = (
     "E1 exhaustive over contract pairs of six wirings (independent, cascade, shared input, feedback, two internal "
     "variables, cascade + external input; contents from cgrid level 0: assumptions <=1 term, guarantees 1 term, "
-    "coefficients {-1,0,1}). Every pair is composed in both call orders x vars_to_keep in {none, first connection "
+    "coefficients {-1,0,1}; plus a family of consumers whose 2-term guarantees bound their own connection input). Every pair is composed in both call orders x vars_to_keep in {none, first connection "
     "variable, a non-connection output} x simplify in {True,False} x tactics_order default [1..5]; when the default run "
     "reports that some term needed a tactic, also reversed, each singleton [1]..[5] and [] (the order is only read when a "
     "term needs transformation, so otherwise these executions are identical). quick = complete core (first 80 pairs of "
@@ -30,6 +30,22 @@ def cases(tier, seed):
         for k, (c1, c2) in enumerate(cgrid.pairs(w, 0)):
             if tier == "thorough" or k < 80 or k % NSLICES == sl:
                 yield {"w": w, "c1": c1, "c2": c2}
+    from .. import grids
+
+    for c in grids.dedupe(_selfbound()):
+        yield c
+
+
+def _selfbound():
+    """consumers whose guarantees bound their own (connection) input jointly - the shape on which a circular context matters"""
+    for w in ("casc", "mix"):
+        i1, o1, i2, o2 = cgrid.WIRINGS[w]
+        for k in (1, 5):
+            for a2 in ([[{"o": 1}, k]], [[{"o": 1}, k + 2]], [[{"o": -1}, 0]]):
+                for g2 in ([[{"o": 1, "p": -1}, 0], [{"p": 1}, k]], [[{"o": 1, "p": 1}, k], [{"p": -1}, 0]], [[{"o": -1, "p": 1}, 0], [{"p": -1}, 0]]):
+                    for g1 in ([[{"o": 1, "i": -2}, 0]], [[{"o": 1, "i": -1}, 1], [{"o": -1}, 0]], [[{"o": -1, "i": 1}, 0]]):
+                        for a1 in ([], [[{"i": 1}, 10]]):
+                            yield {"w": w, "c1": {"i": i1, "o": o1, "a": a1, "g": g1}, "c2": {"i": i2, "o": o2, "a": a2, "g": g2}, "fam": "selfbound"}
 
 
 def describe(tier, seed):
